@@ -168,6 +168,10 @@ def corpus_specs():
         # c = 3 only under bound 3.  The shared frontier must not be explored with invariant_a's private config.
         {"id": "corpus-cfg-loop", "flavour": "cfg", "slot1": 5, "target": ["bump"], "depth": 1, "loop": None, "toml": True,
          "tests": [["a", "inv_lt", 3], ["b", "inv_lt", 3]], "devdoc": {"a": "--loop 3"}, "early_exit": False},
+        # ... and with a private --invariant-depth as well: invariant_a goes one transaction deeper than invariant_b and the
+        # regular test in between; the contract-level bound comes from halmos.toml
+        {"id": "corpus-cfg-depth", "flavour": "cfg", "slot1": 0, "target": ["bump", "reset"], "depth": 1, "loop": 1, "toml": True,
+         "tests": [["a", "inv_ne", 2], ["r", "two", 7], ["b", "inv_ne", 2]], "devdoc": {"a": "--invariant-depth 2", "b": "--loop 2"}, "early_exit": False},
         # a test that writes storage followed by one that reads it
         {"id": "corpus-write-read", "flavour": "regular", "slot1": 5, "target": None, "depth": 0,
          "tests": [["a", "write", 7], ["b", "slotis", 7], ["c", "slotplus", 100], ["d", "tstore", 7]], "devdoc": {}, "early_exit": False},
@@ -703,9 +707,9 @@ def run(rep, tier):
     old_tmp = (tempfile.tempdir, os.environ.get("TMPDIR"))
     tempfile.tempdir = tmp_base
     os.environ["TMPDIR"] = tmp_base
-    first = l3_tasks[:5] + l2_tasks[:8]
+    first = l3_tasks[:6] + l2_tasks[:8]
     rest = []
-    a, b = l3_tasks[5:], l2_tasks[8:]
+    a, b = l3_tasks[6:], l2_tasks[8:]
     for i in range(max(len(a), len(b))):      # interleaved so that both kinds progress under the time budget
         rest += a[i:i + 1] + b[i:i + 1]
     out1 = pool.run_tasks(any_task, first, timeout=400, total_timeout=600)
